@@ -179,6 +179,52 @@ func ruleNoWaitUnderLock(c *Ctx) {
 			}
 		})
 	}
+	// the request handlers: no lock of pike's own is held while the request is parked behind another request's
+	// fetch or is at the upstream (a writer waiting for that lock, a reload, stalls every other request)
+	var getFn *ssa.Function
+	if gm := c.P.Method("cache", "httpCache", "Get"); gm != nil {
+		getFn = gm
+	}
+	for _, f := range c.P.allFuncs {
+		if !inPkg(f, "server") || len(f.Params) == 0 || f.Parent() == nil {
+			continue
+		}
+		if !strings.HasSuffix(f.Params[len(f.Params)-1].Type().String(), "elton.Context") {
+			continue
+		}
+		top := f
+		for top.Parent() != nil {
+			top = top.Parent()
+		}
+		if top.Name() != "NewCache" && top.Name() != "NewProxy" && top.Name() != "NewResponder" {
+			continue
+		}
+		c.P.Simulate(f, SimConfig{MaxVisits: 2}, func(pr *PathResult) {
+			held := 0
+			for _, e := range pr.Events {
+				if e.Deferred || e.InDefer {
+					continue
+				}
+				switch {
+				case e.calleeIs("(*sync.Mutex).Lock", "(*sync.RWMutex).Lock", "(*sync.RWMutex).RLock") && e.Depth == 0:
+					held++
+				case e.calleeIs("(*sync.Mutex).Unlock", "(*sync.RWMutex).Unlock", "(*sync.RWMutex).RUnlock") && e.Depth == 0:
+					if held > 0 {
+						held--
+					}
+				case e.Kind == "call" && e.Callee != nil && e.Callee == getFn, isFieldCall(e, "Next"), isFieldCall(e, "Proxy"):
+					n++
+					if held > 0 {
+						what := "the upstream call / next handler"
+						if e.Callee == getFn {
+							what = "the lookup that parks a coalesced request"
+						}
+						bad = append(bad, fmt.Sprintf("%s: %s holds a lock across %s: a configuration reload waiting for that lock blocks every new request behind the slowest one (and a parked request never lets the fetcher finish)", c.P.pos(e.Instr.Pos()), funcName(f), what))
+					}
+				}
+			}
+		})
+	}
 	c.check(len(bad) == 0, "no-wait-under-lock", "pike", "-", fmt.Sprintf("%d waits for in-flight work found, none under a lock", n), strings.Join(uniq(bad), " || "), n+1)
 }
 
